@@ -6,7 +6,7 @@ import random
 COLLISIONS = [('dc624fd8394d8c42', 'acef63b1d3c2efd2'),
               ('beb04685fc5d09d1', '847b0733e4cc7a31'),
               ('9b11a512e6042a29', 'a2aab0acbdbc4443')]
-KEYS_PLAIN = ['-', '61', '6100', '00', '0000', '62', '6162']
+KEYS_PLAIN = ['-', '=', '61', '6100', '00', '0000', '62', '6162']     # '-' nil, '=' empty but not nil: the same key
 KEYS_ALL = KEYS_PLAIN + [k for p in COLLISIONS for k in p]
 ABSENT_KEY = '7a7a7a'
 
@@ -283,6 +283,11 @@ def draw_trim(rng, sh, which):
         return ops
     if which == 'trims':
         sz = rng.choice([0, 1, 50, 100, 200, 300, 500, 800, 1500, 100000])
+        if multi and rng.random() < 0.4:
+            # a target on a boundary: the Stat size minus Size(m) of the first k live messages, give or take one
+            # (k = 0: the current size itself), resolved by the harness and by the model each from its own numbers
+            sz = 'S%dd%d' % (rng.choice([0, 0, 1, 2, 3, 4, 5, 8]), rng.choice([-1, 0, 0, 0, 1]))
+            return ['stat', 'finds %s' % sz, 'stat', '%s %s' % (name, sz), 'stat', 'disksize']
         return ['stat', 'finds %d' % sz, '%s %d' % (name, sz), 'stat', 'disksize']
     if which == 'trima':
         t = rng.randrange(sh.tcur - 15, sh.tcur + 3)
